@@ -236,17 +236,20 @@ func randomTemplate(rng *rand.Rand, maxDepth int, lits []string) string {
 var baseForms = []struct {
 	Flag, Server string
 	Vars         map[string]string
+	More         []string // further servers: they never decide the base path
 }{
-	{"", "", nil},
-	{"/v1", "", nil},
-	{"/v1/", "", nil},
-	{"/", "", nil},
-	{"", "https://example.com/api", nil},
-	{"", "/api/", nil},
-	{"", "/", nil},
-	{"", "https://example.com/{b}/x", map[string]string{"b": "v2"}},
-	{"", "https://example.com", nil},
-	{"/flag", "https://example.com/ignored", nil},
+	{"", "", nil, nil},
+	{"/v1", "", nil, nil},
+	{"/v1/", "", nil, nil},
+	{"/", "", nil, nil},
+	{"", "https://example.com/api", nil, nil},
+	{"", "/api/", nil, nil},
+	{"", "/", nil, nil},
+	{"", "https://example.com/{b}/x", map[string]string{"b": "v2"}, nil},
+	{"", "https://example.com", nil, nil},
+	{"/flag", "https://example.com/ignored", nil, nil},
+	{"", "https://api.example.com", nil, []string{"http://localhost:8080/v2", "/v3"}},
+	{"", "https://example.com/first", nil, []string{"https://example.com/second"}},
 }
 
 func specFromTemplates(ts tset) *dialect.Spec {
